@@ -34,6 +34,7 @@ class TcpConnection():
         self._recv_data_stream = b""
 
         self._recv_data_available = threading.Event()
+        self._recv_data_lock = threading.Lock()
         self.write_mode_on = threading.Event()
         self.read_mode_on = threading.Event()
 
@@ -227,14 +228,27 @@ class TcpConnection():
         self._read()
 
         if self._recv_buffer:
-            self._recv_data_stream += copy.copy(self._recv_buffer)
-            self._recv_data_available.set()
+            with self._recv_data_lock:
+                self._recv_data_stream += copy.copy(self._recv_buffer)
+                self._recv_data_available.set()
             self._recv_buffer = b""
 
         tcp_connection.debug(f"[Socket-{self.sock_id}] _recv_buffer has "\
                              f"been cleaned up")
 
         self._set_selector_events_mask("r")
+
+
+    def pop_recv_data_stream(self) -> bytes:
+        """Hands over the bytes received so far to the Diameter layer. The
+        swap is done under the same lock the reader appends under, so bytes
+        which arrive meanwhile are neither lost nor handed over twice.
+        """
+        with self._recv_data_lock:
+            data_stream = self._recv_data_stream
+            self._recv_data_stream = b""
+            self._recv_data_available.clear()
+        return data_stream
 
 
     def test_connection(self) -> bool:
